@@ -164,17 +164,25 @@ def build_set(heap, src, keys):
 
 
 def set_state(heap, lst, table):
+    def kc(x):
+        return x.cls if isinstance(x, H.Key) else ('plain string', x)
+
+    def sp(x):
+        return x.spelling if isinstance(x, H.Key) else repr(x)
     seq, problems = H.read_list(heap, lst)
     vals = [heap.objs[n.name]['value'] for n in seq]
     ent = heap.objs[table.name]['entries']
+    for v in vals:
+        if not isinstance(v, H.Key):
+            problems.append('the key set holds the plain string %r instead of a case-insensitive key: look-ups in another spelling miss it' % (v,))
     for k, node in ent:
         if node not in seq:
-            problems.append('table entry %s points to a node that is not in the list' % k.spelling)
-        elif heap.objs[node.name]['value'].cls != k.cls:
-            problems.append('table entry %s points to the node of %s' % (k.spelling, heap.objs[node.name]['value'].spelling))
-    if sorted(k.cls for k, _ in ent) != sorted(v.cls for v in vals):
-        problems.append('table has keys %s but the list holds %s' % ([k.spelling for k, _ in ent], [v.spelling for v in vals]))
-    return [v.spelling for v in vals], problems
+            problems.append('table entry %s points to a node that is not in the list' % sp(k))
+        elif kc(heap.objs[node.name]['value']) != kc(k):
+            problems.append('table entry %s points to the node of %s' % (sp(k), sp(heap.objs[node.name]['value'])))
+    if sorted(map(str, (kc(k) for k, _ in ent))) != sorted(map(str, (kc(v) for v in vals))):
+        problems.append('table has keys %s but the list holds %s' % ([sp(k) for k, _ in ent], [sp(v) for v in vals]))
+    return [sp(v) if isinstance(v, H.Key) else v for v in vals], problems
 
 
 def r2_r4_orderedset(rep, src, tier='quick'):
